@@ -198,6 +198,7 @@ def decode_segwit_addr(
     """
     hrp, data = bip173.parse_bech32(addr)
     assert data[:-6], "empty data"  # ignore checksum
+    assert data[0:1] in bip173.bech32_int_map, "Invalid data character"
     bech32_constant = 1
     if bip173.bech32_int_map[data[0:1]] != 0 and __support_bip350:
         bech32_constant = BECH32M_CONST
